@@ -95,6 +95,7 @@ func init() {
 		Assume: []string{"the summaries of E-level dispatch (destination = first non-scalar operand; Incr adds; Recv stores) and of storage.Copy/CopyIter/Fill, which rules K1arms/K2 check against the kernels", "sparse operands (swap) are outside the dense properties"},
 		Run: func(rc *rules.RC) {
 			rules.M2(rc, nil, 40, 900)
+			rules.L0(rc, nil)
 		},
 	})
 	kmExplain := func(what, groups string) string {
@@ -113,6 +114,7 @@ func init() {
 			rules.K2(rc, fams, f, 1200)
 			rules.K3(rc, fileFilter("eng_arith.go", "eng_minmaxbetween.go", "eng_arith_manual.go"), 30, 430)
 			rules.M2(rc, mGroup("arith", "minmax"), 16, 350)
+			rules.L0(rc, nil)
 		},
 	})
 	register(&Property{
@@ -127,6 +129,7 @@ func init() {
 			rules.K2(rc, fams, f, 1040)
 			rules.K3(rc, fileFilter("eng_cmp.go"), 24, 345)
 			rules.M2(rc, mGroup("cmp"), 12, 300)
+			rules.L0(rc, nil)
 		},
 	})
 	register(&Property{
@@ -141,6 +144,7 @@ func init() {
 			rules.K2(rc, fams, f, 340)
 			rules.K3(rc, fileFilter("eng_unary.go", "eng_map.go"), 30, 250)
 			rules.M2(rc, mGroup("unary"), 15, 178)
+			rules.L0(rc, nil)
 		},
 	})
 	register(&Property{
